@@ -12,7 +12,8 @@ Case language (all JSON-able):
                         | ["l", [vs..]] | ["T", [vs..]] | ["s", [vs..]] | ["fs", [vs..]] | ["d", [[k, v]..]]
   wire spec        ws :=  ["wi", tbname, size, value] | ["wf", bits] | ["ws", vocab?, size, [byte..]]   (also inside
                           OPEN unicode: the payload is the BODY BYTES, whatever they are -- a peer can put any there)
-                        | ["wo", opentype, [ws..]] | ["wr", vs, argno]   (wr: OPEN reference to an earlier argument of shape vs)
+                        | ["wo", opentype, [ws..]] | ["wr", vs, argno]   (wr: OPEN reference to an earlier argument of shape vs;
+                                          argno = ["sib", i, up=0]: to the i-th, already CLOSED, member of the enclosing sequence `up` levels out)
                         | ["wq", k, partial vs]  (the same for an enclosing list / dict: the receiver holds the real, partially
                                           filled container; partial = the value it has when the reference arrives)
                         | ["wp", k]      (OPEN reference to the k-th ENCLOSING sequence, which is still open; k = 0 is the
@@ -429,7 +430,7 @@ class Enc:
         w = int_ws(n)
         self.wire(w)
 
-    def wire(self, ws, refs=None, text=False, stack=()):
+    def wire(self, ws, refs=None, text=False, stack=(), sibs=None):
         """emit one wire tree; returns the receiver-side object id of its OPEN token (None for plain tokens)"""
         k = ws[0]
         if k == "wi":
@@ -450,8 +451,9 @@ class Enc:
                 self.tok(tokens.STRING, ws[2], body)
         elif k == "wo":
             oc, objid = self.open(ws[1].encode())
+            kids = []
             for x in ws[2]:
-                self.wire(x, refs, text=(ws[1] == "unicode"), stack=stack + (objid,))
+                kids.append(self.wire(x, refs, text=(ws[1] == "unicode"), stack=stack + (objid,), sibs=(sibs or ()) + (kids,)))
             self.close(oc)
             return objid
         elif k == "wc":
@@ -468,7 +470,7 @@ class Enc:
         elif k == "wr":
             # OPEN reference <objid> CLOSE, objid = the earlier positional argument number ws[2] of this call
             oc, _ = self.open(b"reference")
-            self.tok(tokens.INT, refs[ws[2]])
+            self.tok(tokens.INT, sibs[-1 - (ws[2][2] if len(ws[2]) > 2 else 0)][ws[2][1]] if isinstance(ws[2], list) else refs[ws[2]])
             self.close(oc)
         else:
             raise ValueError(ws)
